@@ -2,6 +2,7 @@ package sim
 
 import (
 	"fmt"
+	"strings"
 
 	"github.com/cbehopkins/gkvlite"
 )
@@ -146,6 +147,10 @@ func genConPlan(seed uint64, mode string) *ConPlan {
 	mem := r.Bool(0.2)
 	cbs := []int{0, 0, 0, CBAlloc, CBValLength | CBValWrite | CBValRead, CBBeforeWrite | CBAfterRead, CBAll &^ CBRef}
 	cb := cbs[r.Intn(len(cbs))]
+	if mode == "C15" {
+		// reference counting under schedules
+		cb = []int{CBAlloc | CBRef, CBRef, CBAll}[r.Intn(3)]
+	}
 	open := Op{Kind: "open", S: 0, D: 0, CB: cb, N: r.Range(2, 9), Mem: mem}
 	cp.Setup = append(cp.Setup, open)
 	nc := r.Range(1, 3)
@@ -285,6 +290,30 @@ func RunConProp(plan *Plan, prop string) *RunResult {
 	w := res.World
 	initial := c.h.M.Clone()
 	hi := c.checkHistory()
+	if prop == "C19" {
+		// only the read-range monitor is judged here
+		res.Viol = w.Viol
+		res.Sig = MixStr(fmt.Sprint(plan.Sched))
+		res.NonTriv = w.Stats.Probes["keyonly-op-read-item-from-disk"] > 0 && w.Stats.Probes["context-switches"] > 2
+		return res
+	}
+	if prop == "C15" {
+		// only the reference-count clauses are judged here
+		c.viol = nil
+		hi = nil
+		if len(w.Ledger.Negative) > 0 {
+			c.fail("refcount-negative", "run", "under a schedule of concurrent readers an item's reference count dropped below zero: %s", w.Ledger.Negative[0])
+		}
+		for _, ev := range c.evs {
+			if ev.Panic != "" && c.viol == nil && strings.Contains(ev.Panic, "refcount") {
+				c.fail("panic", ev.Op.Kind, "task %s: %s panicked: %s", ev.Task, ev.Op.String(), ev.Panic)
+			}
+		}
+		res.Viol = c.viol
+		res.Sig = MixStr(fmt.Sprint(plan.Sched))
+		res.NonTriv = w.Ledger.AddRefs > 0 && w.Stats.Probes["context-switches"] > 2
+		return res
+	}
 	if prop == "C05" {
 		c.checkFlushes(hi)
 		c.checkCrashSamples(NewRng(Mix(plan.Seed, 0xc4a5)), 6)
